@@ -105,6 +105,13 @@ pub fn run(ctx: &Ctx) -> CheckResult {
         w.golden(c).get(0).map_or(false, |o| o.ok())
     });
 
+    // ---- field-for-field read-back of seeded flat programs with boundary values (checks/fields.rs)
+    let field_cases = crate::checks::fields::field_cases(ctx);
+    let (_r, st_f, f_f, h_f) = par_map(ctx, &field_cases, |w, _, c| w.judge(c));
+    stats.merge(st_f);
+    findings.extend(f_f);
+    herr.extend(h_f);
+
     // ---- initial-state variation: the output paths already exist and hold longer, unrelated data
     let mut stale_cases: Vec<Case> = vec![];
     for (i, c) in bases.iter().enumerate() {
@@ -181,6 +188,7 @@ pub fn run(ctx: &Ctx) -> CheckResult {
     extra.insert("fault_jobs_skipped_because_compile_fails".into(), json!(camp.skipped_jobs));
     extra.insert("fault_variants".into(), json!(camp.variants));
     extra.insert("readback_cases".into(), json!(rb.len()));
+    extra.insert("fieldwise_cases".into(), json!(field_cases.len()));
     extra.insert("stale_output_cases".into(), json!(stale_cases.len()));
     let mut samples = camp.samples;
     samples.push(json!({"readback": rb.get(0).map(|c| c.steps.iter().map(|s| s.argv.join(" ")).collect::<Vec<_>>())}));
